@@ -8,13 +8,18 @@ open Firebolt
 def unT (s : String) : String := if s == "~" then "" else s
 def tT (s : String) : String := if s == "" then "~" else s
 
+/-- texts with characters that JSON must escape travel as `^x` tokens (same table as the harness) -/
+def unTok (s : String) : String :=
+  if s == "^0" then "a\x00b" else if s == "^e" then "\x1b[0m" else if s == "^b" then "x\x07" else if s == "^v" then "\x0b\x7f"
+  else if s == "^u" then "\u2028" ++ String.singleton (Char.ofNat 0xE0001) else if s == "^q" then "say \"hi\" \\ <&>" else unT s
+
 def parseErr (k a b c : String) : Option Err :=
   match k with
-  | "plain" => some (.plain (unT a))
-  | "fb" => some (.fb (unT a) (unT b))
-  | "fbinfo" => some (.fbInfo (unT a) (unT b))
-  | "wrapped" => some (.wrapped (unT c) (unT a) (unT b))
-  | "ptrfb" => some (.ptrFb (unT a) (unT b))
+  | "plain" => some (.plain (unTok a))
+  | "fb" => some (.fb (unTok a) (unTok b))
+  | "fbinfo" => some (.fbInfo (unTok a) (unTok b))
+  | "wrapped" => some (.wrapped (unTok c) (unTok a) (unTok b))
+  | "ptrfb" => some (.ptrFb (unTok a) (unTok b))
   | _ => none
 
 /-- messages are compared hex-encoded because they may contain spaces -/
@@ -55,8 +60,8 @@ def checkOp (ct : String) (op : String) (impl : String) : Verdict :=
         else if kvGet toks "keys" ≠ some "error,event,timestamp" then some "report-fields"
         else
           let structured := k == "fb" || k == "fbinfo"
-          let wantCode := if structured then hexStr (unT a) else hexStr "ERR_UNKNOWN"
-          let wantMsg := if structured then hexStr (unT b) else
+          let wantCode := if structured then hexStr (unTok a) else hexStr "ERR_UNKNOWN"
+          let wantMsg := if structured then hexStr (unTok b) else
             match e with | .plain m => hexStr m | .wrapped pre c m => hexStr (pre ++ ": " ++ c ++ ": " ++ m) | .ptrFb c m => hexStr (c ++ ": " ++ m) | _ => ""
           if kvGet toks "code" ≠ some wantCode then some "error-code"
           else if kvGet toks "msg" ≠ some wantMsg then some "error-message"
